@@ -1,4 +1,126 @@
 package main
 
+import (
+	"bytes"
+	"go/ast"
+	"go/printer"
+	"strings"
+)
+
+func c08Src(rel string, e ast.Node) string {
+	var b bytes.Buffer
+	if err := printer.Fprint(&b, load(rel).fset, e); err != nil {
+		fail("print: %v", err)
+	}
+	return strings.Join(strings.Fields(b.String()), " ")
+}
+
+// c08Skeleton: the decision skeleton of a function body in source order: every `if`
+// condition, every assignment and every return (logging statements = expression statements are
+// skipped). `c.cfg.` (legacy receiver field) is normalised to `c.config.`.
+func c08Skeleton(rel string, fd *ast.FuncDecl) []string {
+	var res []string
+	norm := func(s string) string { return strings.ReplaceAll(s, "c.cfg.", "c.config.") }
+	ast.Inspect(fd.Body, func(n ast.Node) bool {
+		switch v := n.(type) {
+		case *ast.IfStmt:
+			s := ""
+			if v.Init != nil {
+				s = c08Src(rel, v.Init) + "; "
+			}
+			res = append(res, "if "+norm(s+c08Src(rel, v.Cond)))
+		case *ast.AssignStmt:
+			if _, isInit := v.Rhs[0].(*ast.CallExpr); isInit && len(v.Lhs) == 2 {
+				// `ingClass, err := c.GetIngressClass(...)` is printed with its `if`
+				return true
+			}
+			res = append(res, norm(c08Src(rel, v)))
+		case *ast.ReturnStmt:
+			res = append(res, norm(c08Src(rel, v)))
+		}
+		return true
+	})
+	return res
+}
+
 func factsC08() {
+	// ---- C08
+	svc := "pkg/controller/services/cache.go"
+	leg := "pkg/controller/legacy/cache.go"
+	a := c08Skeleton(svc, methodDecl(svc, "c", "IsValidIngress"))
+	b := c08Skeleton(leg, methodDecl(leg, "k8scache", "IsValidIngress"))
+	addStrList("c08IsValidSkeleton", a, "services/cache.go IsValidIngress: if-conditions, assignments and returns in source order")
+	same := len(a) == len(b)
+	for i := range a {
+		if !same || a[i] != b[i] {
+			same = false
+			break
+		}
+	}
+	addBool("c08LegacySameSkeleton", same, "legacy/cache.go IsValidIngress has the same decision skeleton as services/cache.go (logging aside, c.cfg = c.config)")
+	ic := c08Skeleton(svc, methodDecl(svc, "c", "IsValidIngressClass"))
+	addStrList("c08IsValidClassSkeleton", ic, "services/cache.go IsValidIngressClass")
+	gc := c08Skeleton(svc, methodDecl(svc, "c", "GetIngressClass"))
+	addStrList("c08GetIngressClassSkeleton", gc, "services/cache.go GetIngressClass: returns &class together with the error")
+
+	// config.go: controllerName := "<literal>"
+	cfg := "pkg/controller/config/config.go"
+	var lits []string
+	ast.Inspect(load(cfg).f, func(n ast.Node) bool {
+		if as, ok := n.(*ast.AssignStmt); ok && len(as.Lhs) == 1 && len(as.Rhs) == 1 {
+			if id, ok := as.Lhs[0].(*ast.Ident); ok && id.Name == "controllerName" && as.Tok.String() == ":=" {
+				if s, ok := lit(as.Rhs[0]); ok {
+					lits = append(lits, s)
+				}
+			}
+		}
+		return true
+	})
+	addStr("c08ControllerNameLit", one(lits, "controllerName := <literal> in config.go"), "config.go: literal the controller name starts with")
+
+	// watchers.go handlersIngress: the three branch conditions of upd
+	wt := "pkg/controller/reconciler/watchers.go"
+	var br []string
+	ast.Inspect(methodDecl(wt, "watchers", "handlersIngress").Body, func(n ast.Node) bool {
+		if v, ok := n.(*ast.IfStmt); ok {
+			br = append(br, c08Src(wt, v.Cond))
+		}
+		return true
+	})
+	addStrList("c08UpdBranches", br, "watchers.go handlersIngress: if-conditions of the upd function")
+
+	// watchers.go handlersIngress: `full` flag of the two handlers
+	full := map[string]bool{}
+	ast.Inspect(methodDecl(wt, "watchers", "handlersIngress").Body, func(n ast.Node) bool {
+		cl, ok := n.(*ast.CompositeLit)
+		if !ok {
+			return true
+		}
+		typ, isFull := "", false
+		for _, el := range cl.Elts {
+			kv, ok := el.(*ast.KeyValueExpr)
+			if !ok {
+				continue
+			}
+			k, _ := kv.Key.(*ast.Ident)
+			if k == nil {
+				continue
+			}
+			if k.Name == "typ" {
+				typ = c08Src(wt, kv.Value)
+			}
+			if k.Name == "full" {
+				isFull = c08Src(wt, kv.Value) == "true"
+			}
+		}
+		if typ != "" {
+			full[typ] = isFull
+		}
+		return true
+	})
+	if _, ok := full["&networking.IngressClass{}"]; !ok {
+		fail("handlersIngress: IngressClass handler not found")
+	}
+	addBool("c08IngressClassFull", full["&networking.IngressClass{}"], "watchers.go handlersIngress: the IngressClass handler has full: true (an accepted event asks for a full sync)")
+	addBool("c08IngressFull", full["&networking.Ingress{}"], "watchers.go handlersIngress: the Ingress handler has full: true")
 }
